@@ -161,6 +161,18 @@ def std_fields(rng, lm, dts=("f64", "i64"), names=("u", "T", "s", "c")):
     return lm
 
 
+def min_spacing(lm):
+    """smallest distance (max-norm) between two distinct points of a small mesh"""
+    pts = lm["points"]
+    best = float("inf")
+    for i in range(len(pts)):
+        for j in range(i):
+            dist = max(abs(a - b) for a, b in zip(pts[i], pts[j]))
+            if 0.0 < dist < best:
+                best = dist
+    return best
+
+
 def max_abs(lm):
     return max([abs(c) for p in lm["points"] for c in p] + [0.0])
 
@@ -274,8 +286,13 @@ def gen_batch(rng, c17, c08, reps):
                 continue
             dflt = 1e-8 * m
             if kind == "loose":
-                tol = (1e-3 * m, 1e-8)
-                variants = [("below", 1e-5 * m), ("above", 4e-3 * m), ("zero", None)]
+                # looser than the default, but still far below the point spacing h (a tolerance comparable to the spacing
+                # makes points indistinguishable for the sorting rungs: outside what the property speaks about)
+                h = min_spacing(lm)
+                if 1e-3 * h < 1e3 * dflt:
+                    continue
+                tol = (1e-3 * h, 1e-8)
+                variants = [("below", 1e-4 * h), ("above", 4e-3 * h), ("zero", None)]
             elif kind == "tight":
                 tol = (1e-13 * m, 1e-13)
                 variants = [("above", 0.25 * dflt), ("zero", None)]
